@@ -22,7 +22,7 @@ CHECKS = {"R1_receiver_ack_helper": ["C01", "C02", "C03", "C04", "C05", "C06", "
           "R14_periphery_inmem_context_api": ["C01", "C05", "C07", "C09", "C10", "C12"],
           "R15_sched_loop_two_phase": ["C15", "C16"],
           "R16_sched_delay_split": ["C13", "C14", "C15", "C16"],
-          "R17_kicker_label_lookup": ["C09", "C10", "C11", "C16"],
+          "R17_kicker_label_lookup": ["C09", "C10", "C11", "C15", "C16"],
           "R18_spawn_helper_params_split": ["C08", "C17", "C18"],
           "R19_procman_start_split": ["C17", "C18"],
           "R20_retry_decor_procman": ["C11", "C17", "C18", "C09"],
